@@ -140,6 +140,19 @@ CLAIMED = {
         "note": "Trusted: the reference EQ model. Viewer only repeats an ack after a lost response; malformed polls are "
                 "C15's alphabet; injections pending at teardown may vanish.",
     },
+    "C18": {
+        "text": "One proxy with a FilteringMessageLogger (maxlen 4-30) behind a WrappingMessageLogger receives entries from two "
+                "producers - real proxied LLUDP traffic and HTTP flows / EQ events - while an operator interleaves "
+                "set_filter (generated expression trees to depth 4, incl. globs, Meta.*, enum and Meta right-hand sides and "
+                "comparisons that do not fit the field's type), pause, clear, window overflow, export->import, and "
+                "re-filtering after entries were frozen and after their session is gone. An independent evaluator over "
+                "snapshots taken at log time plus a model of the retention rule decide: match(short_circuit on/off) agree "
+                "and equal the evaluator without raising; list(logger) == retained matching entries in arrival order; "
+                "export->import and freeze->thaw preserve the message.",
+        "design_ref": "DESIGN.md §4 C18",
+        "note": "Trusted: the independent evaluator's reading of when a comparison applies (stated in the evidence "
+                "assumptions). Only the generated grammar subset is exercised.",
+    },
 }
 
 NOT_APPLICABLE = {
